@@ -534,6 +534,26 @@ func c13(r *Report) {
 			r.Undecided("(*M/verify.ResetHandler).ServeHTTP", "UNRESOLVED")
 		}
 
+		// a reconfiguration replaces both sides, so that no verifier of the previous
+		// configuration keeps reporting: from the write-lock acquisition of servePOST every path
+		// to the return installs a request side and a response side
+		if sp := r.Use("martianhttp", "Modifier.servePOST"); sp != nil {
+			gsp := G(sp)
+			var lock ssa.Instruction
+			for _, c := range calls(sp, "(*sync.RWMutex).Lock", "(*sync.Mutex).Lock") {
+				if _, isDefer := c.(*ssa.Defer); !isDefer {
+					lock = c
+				}
+			}
+			for _, side := range []string{"setRequestModifier", "setResponseModifier", "SetRequestModifier", "SetResponseModifier"} {
+				name := "(*M/martianhttp.Modifier)." + side
+				if len(calls(sp, name)) == 0 {
+					continue
+				}
+				okSide := lock != nil && gsp.PathTo([]ssa.Instruction{lock}, false, func(i ssa.Instruction) bool { _, y := isCall(i, name); return y }, isReturn) == nil
+				r.Decide("path", "(*M/martianhttp.Modifier).servePOST: "+side+" on every path of an accepted configuration", okSide, "unconditional", "an accepted configuration leaves one side of the previous configuration installed (the side it does not mention): its verifiers go on recording and reporting failures", sp.Pos())
+			}
+		}
 		me := w.Named("", "MultiError")
 		fo := structField(me, "errs")
 		if fo == nil {
@@ -563,6 +583,35 @@ func c13(r *Report) {
 			seen[key] = true
 			r.Sites++
 			r.Decide("lockset", key, ok, "under mu "+ls.String(), "errs accessed without merr.mu: data race between traffic recording failures and a verification query; lockset "+ls.String(), a.Instr.Pos())
+		}
+	})
+
+	r.Guard("C13.R4", "one evaluation of an expectation records at most one failure", func() {
+		// on every path through a leaf verifier's modify method MultiError.Add runs at most as
+		// often as it can on the pinned tree (once for every verifier but the URL verifier, which
+		// checks five parts): an evaluation that fails to parse and then fails the comparison
+		// too is still one unmet expectation
+		for _, l := range leaves {
+			fn := w.method(l.T, l.S.modify)
+			if fn == nil || fn.Blocks == nil {
+				continue
+			}
+			adds := calls(fn, "(*M.MultiError).Add")
+			if len(adds) == 0 {
+				continue
+			}
+			cb := countBefore(fn, func(i ssa.Instruction) bool { _, y := isCall(i, "(*M.MultiError).Add"); return y })
+			max := 0
+			for _, ret := range returns(fn) {
+				if cb[ret].Max > max {
+					max = cb[ret].Max
+				}
+			}
+			limit := 1
+			if strings.Contains(fnName(fn), "martianurl") {
+				limit = 2 // saturating counter: "several" (one per URL part)
+			}
+			r.Decide("path", fnName(fn)+": at most one failure is recorded per evaluation", max <= limit, fmt.Sprintf("at most %d Add call(s) on any path", max), "a path through the verifier records two failures for one message (for instance after a parse error it goes on to the comparison): a verification query reports one unmet expectation twice", fn.Pos())
 		}
 	})
 
@@ -615,7 +664,7 @@ func c13(r *Report) {
 			for _, in := range instrs(fn) {
 				switch x := in.(type) {
 				case *ssa.Store:
-					if fa, ok := x.Addr.(*ssa.FieldAddr); ok && fa.X == ssa.Value(fn.Params[0]) && containsVar(l.State, fieldObj(fa)) {
+					if fa, ok := x.Addr.(*ssa.FieldAddr); ok && isParamVal(fa.X, fn.Params[0]) && containsVar(l.State, fieldObj(fa)) {
 						muts = append(muts, x)
 					}
 				case *ssa.Call:
